@@ -14,6 +14,21 @@ def make_tree(r, idx):
              b"d/n": Node("fifo", link_to=b"d/m"), b"d/0": Node("slink", 0o777, target=b"x"), b"d/9": Node("slink", link_to=b"d/0"),
              b"e": Node("dir", 0o700), b"e/q": Node("file", 0o600, data=[("rand", 5, 9000)]), b"e/a": Node("file", link_to=b"e/q"), b"e/zz": Node("file", link_to=b"e/q")}
         return t, {"hardlink"}
+    if idx % 6 == 2:
+        # names that differ only in case, linked across; a directory that holds nothing but sub directories with a file linked into several of them
+        t = {b"": Node("dir", 0o755), b"Data": Node("dir", 0o755), b"data": Node("dir", 0o755), b"DATA": Node("dir", 0o700),
+             b"Data/f": Node("file", 0o644, data=[("bytes", b"case")]), b"data/f": Node("file", link_to=b"Data/f"), b"DATA/f": Node("file", link_to=b"Data/f"),
+             b"Makefile": Node("file", 0o644, data=[("bytes", b"mk")]), b"a.c": Node("file", 0o644, data=[("bytes", b"c")]), b"makefile": Node("file", link_to=b"Makefile"),
+             b"MAKEFILE": Node("file", link_to=b"Makefile"),
+             b"only": Node("dir", 0o755), b"only/s1": Node("dir", 0o755), b"only/s2": Node("dir", 0o755), b"only/s3": Node("dir", 0o755),
+             b"only/s1/x": Node("file", 0o644, data=[("bytes", b"spread")]), b"only/s2/x": Node("file", link_to=b"only/s1/x"), b"only/s3/x": Node("file", link_to=b"only/s1/x"),
+             # (unrelated inodes around the linked name, so that the choice of the primary name moves inode numbers)
+             b"only/s1/a": Node("fifo", 0o600), b"only/s1/z": Node("file", 0o644, data=[("bytes", b"z1")]), b"only/s2/a": Node("file", 0o644, data=[("bytes", b"a2")]),
+             b"only/s2/z": Node("fifo", 0o600), b"only/s3/k": Node("dir", 0o755), b"only/s3/k/deep": Node("file", 0o600, data=[("bytes", b"deep")]),
+             b"one/t1/b": Node("file", 0o644, data=[("bytes", b"b")]), b"one/t2/zz": Node("file", 0o644, data=[("bytes", b"zz")]),
+             b"one": Node("dir", 0o755), b"one/t1": Node("dir", 0o755), b"one/t2": Node("dir", 0o755), b"one/single": Node("fifo", 0o600),
+             b"one/t2/y": Node("slink", 0o777, target=b"z"), b"one/t1/y": Node("slink", link_to=b"one/t2/y")}
+        return t, {"hardlink", "case-only-names", "dir-of-dirs"}
     if idx % 3 == 1 and idx % 2 == 1:
         # names that are prefixes of one another, linked, with unrelated entries sorting in between
         t = {b"": Node("dir", 0o755), b"data": Node("file", 0o644, data=[("bytes", b"D")]), b"data.bak": Node("file", link_to=b"data"),
